@@ -13,6 +13,7 @@
 ##############################################################################
 """Schema loader utility."""
 
+import http.client
 import os.path
 import re
 import sys
@@ -210,9 +211,12 @@ class BaseLoader(ABC):
                 # urllib.request.URLError has a particularly hostile str(), so
                 # we generally don't want to pass it along to the user.
                 self._raise_open_error(url, e.reason)  # pragma: no cover
-            except (OSError, ValueError) as e:
+            except (OSError, ValueError, http.client.HTTPException) as e:
                 # ValueError: a URL urllib cannot parse, or a file
-                # name the operating system cannot represent
+                # name the operating system cannot represent;
+                # HTTPException: a URL the HTTP client refuses
+                # (http.client.InvalidURL: non-numeric port, blanks or
+                # control characters in the host)
                 self._raise_open_error(url, str(e))
 
             try:
